@@ -545,7 +545,8 @@ func (x *Exec) measureOf(s *State, fc *FuncContract, env *specEnv, _ []Val, atEn
 // already stored somewhere) must satisfy their invariant now; the others are out of the callee's
 // reach and keep their field values across the call.
 func (x *Exec) preCall(s *State, in *ssa.Call, args []Val) func() {
-	if len(s.allocTypes) == 0 && len(s.freshArrays) == 0 {
+	_, hasBuf := s.heap["ghost:buf"]
+	if len(s.allocTypes) == 0 && len(s.freshArrays) == 0 && !(hasBuf && len(s.fresh) > 0) {
 		return func() {}
 	}
 	reach := func(ref T) bool {
@@ -591,7 +592,24 @@ func (x *Exec) preCall(s *State, in *ssa.Call, args []Val) func() {
 		}
 	}
 	s.freshArrays = keepArr
+	// string builders / buffers obtained by this activation (from the pool or newly made) that the
+	// callee cannot reach keep their content
+	var keepBuf []T
+	if hasBuf {
+		for _, r := range s.fresh {
+			if !reach(r) {
+				keepBuf = append(keepBuf, r)
+			}
+		}
+	}
 	return func() {
+		if old, ok1 := pre["ghost:buf"]; ok1 {
+			if cur, ok2 := s.heap["ghost:buf"]; ok2 && old.S != cur.S {
+				for _, r := range keepBuf {
+					s.assume(Eq(Select(cur, r, SStr), Select(old, r, SStr)))
+				}
+			}
+		}
 		for _, a := range keepArr {
 			for _, suf := range []string{"", "#a", "#o", "#l", "#c"} {
 				k := a.key + suf
